@@ -118,4 +118,107 @@ theorem mtm_ids_mergeChildren (d : Nat) (m : MMetaSlab (MTree r d)) (l rr : MTre
 
 end ids
 
+/-! ### the identifiers after `MergeOrRebalanceChildSlab`, whichever branch is taken -/
+
+section idpost
+variable {r : Nat}
+
+/-- the identifiers of the new parent are those of the old one - or those without ONE identifier, which is gone -/
+def mtm_IdPost (s' : MHSt r) (d : Nat) (m m' : MMetaSlab (MTree r d)) : Prop :=
+  m'.hdr.id = m.hdr.id ∧
+  (List.Perm (md_ids (d + 1) m') (md_ids (d + 1) m) ∨
+   ∃ rid, List.Perm (rid :: md_ids (d + 1) m') (md_ids (d + 1) m) ∧ s'.heap rid = none)
+
+theorem mtm_rebHeapOf_popped (T : Nat) (d : Nat) (m : MMetaSlab (MTree r d)) (x : Option DX) (l rr : MTree r d)
+    (li ri : Nat) (b : Bool) (s : MHSt r) : (mrm_rebHeapOf T d m x l rr li ri b s).popped = s.popped := by
+  simp only [mrm_rebHeapOf]
+  split <;> rfl
+
+theorem mtm_morHeap_popped (T : Nat) (d : Nat) (m : MMetaSlab (MTree r d)) (x : Option DX) (child : MTree r d)
+    (k u : Nat) (s : MHSt r) : (mrm_morHeap T d m x child k u s).popped = s.popped := by
+  simp only [mrm_morHeap]
+  repeat' split
+  all_goals first | rfl | exact mtm_rebHeapOf_popped T d m x _ _ _ _ _ s
+
+variable (T : Nat) (d : Nat) (m : MMetaSlab (MTree r d)) (x : Option DX) (child : MTree r d) (k : Nat) (s : MHSt r)
+  (m' : MMetaSlab (MTree r d)) (c' : Ctx) (hh : mrm_MorHeld s d m child k) (hck : m.children[k]? = some child)
+include hh hck
+
+theorem mtm_leafRebR (y : MTree r d) (hy : m.children[k + 1]? = some y)
+    (h : MMetaSlab.rebalanceChildren T m child y k (k + 1) true s.ctx = .ok (m', c')) :
+    mtm_IdPost (mrm_rebHeapOf T d m x child y k (k + 1) true s) d m m' :=
+  ⟨(mrm_rebalanceChildren_ok T d m child y k (k + 1) true s.ctx m' c' h).2,
+    Or.inl (mtm_ids_rebalanceChildren T d m child y k true s.ctx m' c' hck hy h)⟩
+
+theorem mtm_leafRebL (l : MTree r d) (hk0 : 0 < k) (hl : m.children[k - 1]? = some l)
+    (h : MMetaSlab.rebalanceChildren T m l child (k - 1) k false s.ctx = .ok (m', c')) :
+    mtm_IdPost (mrm_rebHeapOf T d m x l child (k - 1) k false s) d m m' := by
+  obtain ⟨j, rfl⟩ : ∃ j, k = j + 1 := ⟨k - 1, by omega⟩
+  simp only [Nat.add_sub_cancel] at hl h ⊢
+  exact ⟨(mrm_rebalanceChildren_ok T d m l child j (j + 1) false s.ctx m' c' h).2,
+    Or.inl (mtm_ids_rebalanceChildren T d m l child j false s.ctx m' c' hl hck h)⟩
+
+theorem mtm_leafMrgR (y : MTree r d) (hy : m.children[k + 1]? = some y)
+    (h : (Except.ok (MMetaSlab.mergeChildren m child y k (k + 1) s.ctx) : Except MErr _) = .ok (m', c')) :
+    mtm_IdPost (mrm_mergeHeapOf d m x child y k (k + 1) s) d m m' := by
+  have hm : (MMetaSlab.mergeChildren m child y k (k + 1) s.ctx).1 = m' := congrArg Prod.fst (Except.ok.inj h)
+  subst hm
+  have p := mrm_mergeHeapOf_post d m x child y k (k + 1) s (mrm_pairR s d m child k y hh hy)
+  exact ⟨rfl, Or.inr ⟨_, mtm_ids_mergeChildren d m child y k s.ctx hck hy, p.2.2.1⟩⟩
+
+theorem mtm_leafMrgL (l : MTree r d) (hk0 : 0 < k) (hl : m.children[k - 1]? = some l)
+    (h : (Except.ok (MMetaSlab.mergeChildren m l child (k - 1) k s.ctx) : Except MErr _) = .ok (m', c')) :
+    mtm_IdPost (mrm_mergeHeapOf d m x l child (k - 1) k s) d m m' := by
+  have hm : (MMetaSlab.mergeChildren m l child (k - 1) k s.ctx).1 = m' := congrArg Prod.fst (Except.ok.inj h)
+  subst hm
+  have p := mrm_mergeHeapOf_post d m x l child (k - 1) k s (mrm_pairL s d m child k l hh hk0 hl)
+  obtain ⟨j, rfl⟩ : ∃ j, k = j + 1 := ⟨k - 1, by omega⟩
+  simp only [Nat.add_sub_cancel] at hl p ⊢
+  exact ⟨rfl, Or.inr ⟨_, mtm_ids_mergeChildren d m l child j s.ctx hl hck, p.2.2.1⟩⟩
+
+theorem mtm_mor_idpost (u : Nat)
+    (h : MMetaSlab.mergeOrRebalanceChildSlab T m child k u s.ctx = .ok (m', c')) :
+    mtm_IdPost (mrm_morHeap T d m x child k u s) d m m' := by
+  revert h
+  simp only [MMetaSlab.mergeOrRebalanceChildSlab, mrm_morHeap]
+  cases hl : (if k > 0 then m.children[k - 1]? else none) with
+  | none =>
+    cases hx : (if k + 1 < m.childHdrs.length then m.children[k + 1]? else none) with
+    | none => simp only [Bool.or_false, Bool.false_eq_true, if_false]; intro h; cases h
+    | some y =>
+      have hy : m.children[k + 1]? = some y := by
+        by_cases hk : k + 1 < m.childHdrs.length
+        · rw [if_pos hk] at hx; exact hx
+        · rw [if_neg hk] at hx; cases hx
+      simp only [Bool.false_or]
+      split
+      · exact mtm_leafRebR T d m x child k s m' c' hh hck y hy
+      · exact mtm_leafMrgR d m x child k s m' c' hh hck y hy
+  | some l =>
+    have hkl : 0 < k ∧ m.children[k - 1]? = some l := by
+      by_cases hk : k > 0
+      · rw [if_pos hk] at hl; exact ⟨hk, hl⟩
+      · rw [if_neg hk] at hl; cases hl
+    obtain ⟨hk0, hl'⟩ := hkl
+    cases hx : (if k + 1 < m.childHdrs.length then m.children[k + 1]? else none) with
+    | none =>
+      simp only [Bool.or_false]
+      split
+      · exact mtm_leafRebL T d m x child k s m' c' hh hck l hk0 hl'
+      · exact mtm_leafMrgL d m x child k s m' c' hh hck l hk0 hl'
+    | some y =>
+      have hy : m.children[k + 1]? = some y := by
+        by_cases hk : k + 1 < m.childHdrs.length
+        · rw [if_pos hk] at hx; exact hx
+        · rw [if_neg hk] at hx; cases hx
+      simp only []
+      repeat' split
+      all_goals first
+        | exact mtm_leafRebR T d m x child k s m' c' hh hck y hy
+        | exact mtm_leafMrgR d m x child k s m' c' hh hck y hy
+        | exact mtm_leafRebL T d m x child k s m' c' hh hck l hk0 hl'
+        | exact mtm_leafMrgL d m x child k s m' c' hh hck l hk0 hl'
+
+end idpost
+
 end Atree.TransEq
